@@ -48,9 +48,11 @@ theorem seen_invariant (h : WF U W) {v : VW} {la : Block} (hr : Reachable U W v 
   let i := (reachable_inv h hr).1
   ⟨i.height, i.complete, i.prov⟩
 
-/-- **C09, verification.** -/
-theorem no_repeat_on_verified_chain (h : WF U W) {v : VW} {la : Block}
-    (hr : Reachable U W v la)
+/-- **C09, verification — core form**, from the invariant alone (so that any route that
+establishes `SeenInv` can use it: `Reachable` below, and the state-sync routes of C22,
+`forward_done_implies_window_covered` / `backfill_done_implies_window_covered_partial`). -/
+theorem no_repeat_of_inv (h : WF U W) {v : VW} {la : Block}
+    (hinv : SeenInv U v la) (hla : InU U la)
     {idx : Index} (hidx : ∀ i b, idx i = some b → U i = some b)
     {B P : Block} {fuel : Nat}
     (hpar : U B.parent = some P) (hdesc : Anc U la P)
@@ -60,7 +62,7 @@ theorem no_repeat_on_verified_chain (h : WF U W) {v : VW} {la : Block}
     (hok : verifyERP idx W v fuel B = .ok) :
     (B.txs.map (·.id)).Nodup ∧
     ∀ A, Anc U A P → ∀ t ∈ B.txs, ∀ t' ∈ A.txs, t'.id ≠ t.id := by
-  obtain ⟨hinv, hla⟩ := reachable_inv h hr
+  have _ := hla
   have hPU := inU_of_lookup h hpar
   have hlaP := Anc.le h hdesc hPU
   unfold verifyERP at hok
@@ -100,9 +102,30 @@ theorem no_repeat_on_verified_chain (h : WF U W) {v : VW} {la : Block}
           have := hall j t hj (by omega) A hA hreach (hits_iff.mpr ⟨t', ht', hid⟩)
           simp at this
 
-/-- **C09, builder / pre-executor.** Every tx that `IsRepeat(parent, now, txs)` leaves
-unmarked and that is valid at `now` occurs in no block of the parent's chain. -/
-theorem builder_never_repeats (h : WF U W) {v : VW} {la : Block} (hr : Reachable U W v la)
+/-- **C09, verification.** -/
+theorem no_repeat_on_verified_chain (h : WF U W) {v : VW} {la : Block}
+    (hr : Reachable U W v la)
+    {idx : Index} (hidx : ∀ i b, idx i = some b → U i = some b)
+    {B P : Block} {fuel : Nat}
+    (hpar : U B.parent = some P) (hdesc : Anc U la P)
+    (hheight : B.height = P.height + 1) (hts : P.ts ≤ B.ts)
+    (hvalid : ∀ t ∈ B.txs, B.ts ≤ t.expiry ∧ t.expiry ≤ B.ts + W)
+    (hfun : ∀ t ∈ B.txs, ∀ A, InU U A → ∀ t' ∈ A.txs, t'.id = t.id → t'.expiry = t.expiry)
+    (hok : verifyERP idx W v fuel B = .ok) :
+    (B.txs.map (·.id)).Nodup ∧
+    ∀ A, Anc U A P → ∀ t ∈ B.txs, ∀ t' ∈ A.txs, t'.id ≠ t.id :=
+  let i := reachable_inv h hr
+  no_repeat_of_inv h i.1 i.2 hidx hpar hdesc hheight hts hvalid hfun hok
+
+/-- **C09, builder / pre-executor — core form.** Every tx that `IsRepeat(parent, now, txs)`
+leaves unmarked and that is valid at `now` occurs in no block of the parent's chain.
+This is the *ancestor* half of the builder clause; that the ids inside one built block are
+pairwise distinct is not the window's doing: the builder takes its candidates from the mempool,
+which never holds two txs with the same id (assumption here; C23 `no_dup_ids`), and the built
+block is verified like any other (C02), where the in-block check of
+`no_repeat_on_verified_chain` applies. -/
+theorem builder_never_repeats_of_inv (h : WF U W) {v : VW} {la : Block}
+    (hinv : SeenInv U v la)
     {idx : Index} (hidx : ∀ i b, idx i = some b → U i = some b)
     {P : Block} {fuel : Nat} (hP : InU U P) (hdesc : Anc U la P) {now : Int} (hnow : P.ts ≤ now)
     {txs : List Tx}
@@ -110,7 +133,6 @@ theorem builder_never_repeats (h : WF U W) {v : VW} {la : Block} (hr : Reachable
     {m : List Nat} (hok : isRepeatAPI idx W v fuel P now txs = .ok m) :
     ∀ j t, txs[j]? = some t → j ∉ m → now ≤ t.expiry →
       ∀ A, Anc U A P → ∀ t' ∈ A.txs, t'.id ≠ t.id := by
-  obtain ⟨hinv, hla⟩ := reachable_inv h hr
   have hlaP := Anc.le h hdesc hP
   unfold isRepeatAPI at hok
   rcases walk_complete h hidx hinv (oldestAllowed W now) txs false hfun fuel P [] m hP hdesc hok
@@ -121,6 +143,72 @@ theorem builder_never_repeats (h : WF U W) {v : VW} {la : Block} (hr : Reachable
     have he := hfun t (List.mem_of_getElem? hj) A hAU t' ht' hid
     have hreach : oldestAllowed W now ≤ A.ts := ancestor_in_reach h hAU ht' (by omega)
     exact hnm (hall j t hj (by omega) A hA hreach (hits_iff.mpr ⟨t', ht', hid⟩))
+
+/-- **C09, builder / pre-executor.** -/
+theorem builder_never_repeats (h : WF U W) {v : VW} {la : Block} (hr : Reachable U W v la)
+    {idx : Index} (hidx : ∀ i b, idx i = some b → U i = some b)
+    {P : Block} {fuel : Nat} (hP : InU U P) (hdesc : Anc U la P) {now : Int} (hnow : P.ts ≤ now)
+    {txs : List Tx}
+    (hfun : ∀ t ∈ txs, ∀ A, InU U A → ∀ t' ∈ A.txs, t'.id = t.id → t'.expiry = t.expiry)
+    {m : List Nat} (hok : isRepeatAPI idx W v fuel P now txs = .ok m) :
+    ∀ j t, txs[j]? = some t → j ∉ m → now ≤ t.expiry →
+      ∀ A, Anc U A P → ∀ t' ∈ A.txs, t'.id ≠ t.id :=
+  builder_never_repeats_of_inv h (reachable_inv h hr).1 hidx hP hdesc hnow hfun hok
+
+/-! ### global distinctness along a chain -/
+
+/-- What verification establishes for one block (the conclusion of `no_repeat_of_inv`). -/
+def StepOK (U : Universe) (b : Block) : Prop :=
+  (b.txs.map (·.id)).Nodup ∧
+  ∀ P, U b.parent = some P → ∀ A, Anc U A P → ∀ t ∈ b.txs, ∀ t' ∈ A.txs, t'.id ≠ t.id
+
+/-- A tip-first list of blocks linked by parent ids. -/
+def LinkedChain (U : Universe) : List Block → Prop
+  | [] => True
+  | [_] => True
+  | b :: p :: rest => U b.parent = some p ∧ LinkedChain U (p :: rest)
+
+theorem linkedChain_anc : ∀ (c : List Block) (p : Block), LinkedChain U (p :: c) →
+    ∀ A ∈ p :: c, Anc U A p := by
+  intro c
+  induction c with
+  | nil => intro p _ A hA; have : A = p := by simpa using hA
+           subst this; exact Anc.refl _
+  | cons q rest ih =>
+    intro p hl A hA
+    obtain ⟨hp, hl'⟩ := hl
+    cases hA with
+    | head => exact Anc.refl _
+    | tail _ hm => exact Anc.step hp (ih q hl' A hm)
+
+/-- **No transaction id appears twice on a chain**: if every block of a parent-linked chain
+passed verification in the sense of `StepOK` (which `no_repeat_on_verified_chain` /
+`no_repeat_of_inv` provide for each block verified in normal operation), then all tx ids of all
+blocks of the chain, taken together, are pairwise distinct. -/
+theorem chain_tx_ids_distinct : ∀ (c : List Block), LinkedChain U c → (∀ b ∈ c, StepOK U b) →
+    ((c.flatMap (·.txs)).map (·.id)).Nodup := by
+  intro c
+  induction c with
+  | nil => intro _ _; simp
+  | cons b rest ih =>
+    intro hl hs
+    have hb := hs b List.mem_cons_self
+    have hrest : LinkedChain U rest := by
+      cases rest with
+      | nil => trivial
+      | cons p r => exact hl.2
+    have ihr := ih hrest (fun x hx => hs x (List.mem_cons_of_mem _ hx))
+    simp only [List.flatMap_cons, List.map_append]
+    refine List.nodup_append.mpr ⟨hb.1, ihr, ?_⟩
+    intro x hx y hy hxy
+    obtain ⟨t, ht, rfl⟩ := List.mem_map.mp hx
+    obtain ⟨t', ht', rfl⟩ := List.mem_map.mp hy
+    obtain ⟨A, hA, htA⟩ := List.mem_flatMap.mp ht'
+    cases rest with
+    | nil => simp at hA
+    | cons p r =>
+      have hanc := linkedChain_anc r p hl.2 A hA
+      exact hb.2 p hl.1 A hanc t ht t' htA hxy.symm
 
 /-- `populate` that reports a full window covers the window by itself (`hist = []` in
 `Reachable.restart`): this is the `Complete(...) == true` gate of `startNormalOp`. -/
@@ -215,5 +303,60 @@ example : Reachable U0 5 (newWindow U0 5 1 g0) g0 := by
       | refl => simp
       | step hp2 _ => simp [U0, g0] at hp2)
   simpa using this
+
+/-! Non-vacuity with a real transaction: genesis plus a block carrying tx 7 (expiry 3, window 5);
+the tree is well formed, accepting the block is a reachable history, and in that state the model
+rejects a child repeating tx 7. -/
+def U1 : Universe := fun i => if i = 0 then some cxG else if i = 1 then some cxB else none
+
+theorem inU1 {b : Block} (hb : InU U1 b) : b = cxG ∨ b = cxB := by
+  unfold InU U1 at hb
+  split at hb
+  · exact Or.inl (Option.some.inj hb).symm
+  · split at hb
+    · exact Or.inr (Option.some.inj hb).symm
+    · cases hb
+
+example : WF U1 5 where
+  id_eq := by
+    intro i b hb; unfold U1 at hb
+    split at hb
+    · next hi => cases hb; simp [cxG, hi]
+    · split at hb
+      · next hi => cases hb; simp [cxB, hi]
+      · cases hb
+  link := by
+    intro b p hb hp
+    rcases inU1 hb with rfl | rfl
+    · simp [U1, cxG] at hp
+    · simp [U1, cxB] at hp; subst hp; simp [cxG, cxB]
+  ts_nonneg := by
+    intro b hb; rcases inU1 hb with rfl | rfl <;> simp [cxG, cxB]
+  txs_valid := by
+    intro b hb t ht
+    rcases inU1 hb with rfl | rfl
+    · simp [cxG] at ht
+    · simp [cxB] at ht; subst ht; decide
+  id_expiry := by
+    intro b c hb hc t ht t' ht' _
+    rcases inU1 hb with rfl | rfl
+    · simp [cxG] at ht
+    · rcases inU1 hc with rfl | rfl
+      · simp [cxG] at ht'
+      · simp [cxB] at ht ht'; subst ht; subst ht'; rfl
+
+example : Reachable U1 5 (accept (newWindow U1 5 1 cxG) cxB) cxB := by
+  have hp : populate U1 5 VW.fresh 1 cxG = (newWindow U1 5 1 cxG, [cxG], true) := by
+    simp [newWindow, populate, populateWalk, cxG]
+  have h0 := @Reachable.restart U1 5 U1 1 cxG _ [cxG] [] true (fun _ _ hb => hb) (by simp [InU, U1, cxG]) hp
+    (by intro b hb; simp at hb) (by
+      intro A hA _
+      cases hA with
+      | refl => simp
+      | step hp2 _ => simp [U1, cxG] at hp2)
+  have h1 : Reachable U1 5 (newWindow U1 5 1 cxG) cxG := by simpa using h0
+  exact Reachable.accept h1 (by simp [InU, U1, cxB]) (by simp [U1, cxB])
+
+example : verifyERP U1 5 (accept (newWindow U1 5 1 cxG) cxB) 5 cxC = .dupAncestor := by decide
 
 end HyperModel.Props.C09
